@@ -71,6 +71,15 @@ CHECKS = {
             'The draw space is finite, so this is complete for the property as stated.',
             'Sockets are stubbed (no datagram is sent); time.time() is a fixed virtual instant; the send loop itself '
             '(10 ms raster) is outside the property.', '3/C15'),
+    'C16': ('I', 'exhaustive enumeration of the element-value product (present/absent x special characters) and of a scope-string grammar on the real SdcLocation / set_location / mk_scopes code',
+            'All |V|^6 locations over a value domain with reserved URL characters, encoded slashes, non-ASCII text and absent elements '
+            '(4^6 quick, 8^6 thorough) are converted to a scope string and parsed back; for all locations over a sub-domain the scope '
+            'actually published by a real provider (set_location -> LocationContextState.update_from_sdc_location -> mk_scopes) is '
+            'tested against the location itself, all 64 enclosing locations and 18 one-element deviations; about 9000 foreign scope '
+            'strings (6 schemes x 0-4 path segments x 11 query shapes x 3 leading-slash forms plus malformed urls) are passed through '
+            'filter_services_inside with three own locations: it must return, keep the matching services and never raise.',
+            'Empty string == absent element; the all-absent location is not published (rejected by contract); values outside the '
+            'domain V are not covered.', '3/C16'),
     'C18': ('I', 'bounded-exhaustive enumeration of the lexical / Python value spaces against exact-arithmetic oracles',
             'Every integer millisecond in dense windows (0..2e6, 1e6 around 1.7e12, 1e5 below 2^53/1000; thorough: 0..1e7 plus '
             'ten more windows) is converted xml->py->xml and py->xml->py (including both float neighbours); decimals: the full '
